@@ -337,6 +337,94 @@ where
     Ok(failed_as_required)
 }
 
+/// A claim whose guard was leaked never ends: with exclusive access to the (still claimed) original, the calls that
+/// need `&mut self` must be refused as well.
+fn leaked_case<St>(op: &str) -> Result<bool, String>
+where
+    St: BumpAllocatorSettings + 'static,
+    SlabZ: BaseAllocator<St::GuaranteedAllocated>,
+{
+    slab::select(0);
+    slab::reset(0, SlabCfg::default());
+    let _ = vcore::crash::take_last_panic();
+    let mut bump: Bump<SlabZ, St> = Bump::new_in(SlabZ);
+    let p = bump.alloc_slice_fill(5, 0xA5u8).into_raw();
+    std::mem::forget(bump.claim());
+    if !bump.is_claimed() {
+        return Err("is_claimed() is false although the claim guard was leaked".into());
+    }
+    let calls = slab::with_slab(0, |s| s.calls);
+    let r: Result<(), String> = match op {
+        "try_by_value" => match bump.as_mut_scope().try_by_value() {
+            Ok(_) => Err("try_by_value() succeeded on a claimed allocator".into()),
+            Err(_) => Ok(()),
+        },
+        "by_value" => match catch_unwind(AssertUnwindSafe(|| {
+            let _ = bump.as_mut_scope().by_value();
+        })) {
+            Ok(()) => Err("by_value() returned normally on a claimed allocator".into()),
+            Err(_) => Ok(()),
+        },
+        "scoped_try_alloc" => {
+            if bump.scoped(|s| s.try_alloc(1u64).is_ok()) {
+                Err("try_alloc inside scoped() succeeded on a claimed allocator".into())
+            } else {
+                Ok(())
+            }
+        }
+        "scope_guard_try_alloc" => {
+            let mut g = bump.scope_guard();
+            if g.scope().try_alloc_slice_fill(3, 1u8).is_ok() { Err("try_alloc_slice_fill through scope_guard() succeeded on a claimed allocator".into()) } else { Ok(()) }
+        }
+        "aligned_try_alloc" => {
+            if bump.as_mut_scope().aligned::<8, _>(|s| s.try_alloc(1u8).is_ok()) {
+                Err("try_alloc inside aligned() succeeded on a claimed allocator".into())
+            } else {
+                Ok(())
+            }
+        }
+        "try_alloc_try_with_mut" => match bump.try_alloc_try_with_mut(|| Ok::<u64, ()>(1)) {
+            Ok(_) => Err("try_alloc_try_with_mut succeeded on a claimed allocator".into()),
+            Err(_) => Ok(()),
+        },
+        "try_alloc_iter_mut" => match bump.try_alloc_iter_mut(0..3u32) {
+            Ok(_) => Err("try_alloc_iter_mut succeeded on a claimed allocator".into()),
+            Err(_) => Ok(()),
+        },
+        "reset" => {
+            bump.reset();
+            Ok(())
+        }
+        "reset_to_start" => {
+            bump.reset_to_start();
+            Ok(())
+        }
+        _ => Err("unknown op".into()),
+    };
+    let _ = vcore::crash::take_last_panic();
+    r?;
+    if slab::with_slab(0, |s| s.calls) != calls {
+        return Err(format!("{op} on a claimed allocator reached the base allocator"));
+    }
+    if !bump.is_claimed() {
+        return Err(format!("{op} ended the claim"));
+    }
+    let st = bump.stats();
+    if st.count() != 0 || st.allocated() != 0 || st.capacity() != 0 {
+        return Err(format!("stats of the claimed allocator are not all zero after {op}"));
+    }
+    if unsafe { std::slice::from_raw_parts(p.as_ptr() as *const u8, 5) } != [0xA5; 5] {
+        return Err(format!("{op} on the claimed allocator changed memory allocated before the claim"));
+    }
+    // the claimed handle is leaked together with its chunk (the guard that owns the chunk pointer is gone)
+    std::mem::forget(bump);
+    Ok(true)
+}
+
+// scoped() / scope_guard() / aligned() on a claimed handle are deliberately not probed: C14 says nothing about
+// opening scopes on the claimed original (the library trips one of its own debug assertions there)
+const LEAK_OPS: [&str; 6] = ["try_by_value", "by_value", "try_alloc_try_with_mut", "try_alloc_iter_mut", "reset", "reset_to_start"];
+
 pub fn run_one(id: &str) -> Option<Outcome> {
     run(Some(id)).into_iter().next()
 }
@@ -347,6 +435,28 @@ pub fn run_all() -> Vec<Outcome> {
 
 fn run(only: Option<&str>) -> Vec<Outcome> {
     let mut out = Vec::new();
+    for ci in 0..4usize {
+        for op in LEAK_OPS {
+            let id = format!("claimleak:{ci}:{op}");
+            if only.is_some_and(|o| o != id) {
+                continue;
+            }
+            vcore::crash::set_inflight(format!("replayargs=[--claimcoll {id}]"));
+            let r = catch_unwind(AssertUnwindSafe(|| match ci {
+                0 => leaked_case::<S<1, true>>(op),
+                1 => leaked_case::<S<1, false>>(op),
+                2 => leaked_case::<S<8, true>>(op),
+                _ => leaked_case::<S<16, false>>(op),
+            }));
+            vcore::crash::clear_inflight();
+            let msg = match r {
+                Ok(Ok(_)) => None,
+                Ok(Err(m)) => Some(m),
+                Err(_) => Some(format!("unexpected panic: {}", vcore::crash::take_last_panic().unwrap_or_default())),
+            };
+            out.push(Outcome { id, msg, nontrivial: true });
+        }
+    }
     for ci in 0..4usize {
         for kind in ["vec", "string"] {
             for n in 0..=4u32 {
